@@ -128,6 +128,10 @@ func worker(id, tier string, batch int, outdir string) int {
 		evals++
 	}
 	prog.Close()
+	if f, ok := mon.(interface{ Finish(*Ctx) }); ok {
+		ctx.Index = -2
+		runOne("finish", func() { f.Finish(ctx) })
+	}
 	if ev, ok := ctx.Counters["evaluations"]; ok { // monitors may count finer-grained executions
 		evals = ev
 	}
